@@ -14,11 +14,15 @@ THEOREMS = ["C04_lookup_sound", "C04_lookup_complete", "C04_lookup_least", "C04_
             "C04_extendors_inv", "C04_system_inv"]
 SHARD = 10
 RULE = ("worlds of <= 8 specifications (interfaces and class declarations, multiple inheritance), registry DAGs of "
-        "1-4 registries of one flavour, <= 25 register/unregister/subscribe/unsubscribe operations of arity "
-        "0-3 over <= 3 names (no rebuild: the shared model replays rebuild in flat insertion order, see report) (targeted: registrations derived from earlier ones by moving one required position or "
-        "the provided interface along the hierarchy), then for several (registry, provided, name) combinations ALL "
-        "required keys of arity <= 2 over the world plus sampled arity-3 keys are looked up (lookup / lookup1 / "
-        "registered); a case is non-trivial when at least two different values and the default were returned; "
+        "1-4 registries of one flavour, <= 25 register/unregister/subscribe/unsubscribe operations of arity 0-3 over "
+        "<= 3 names (targeted: derived from earlier registrations by moving one required position or the provided "
+        "interface along the hierarchy; no rebuild, see report).  One lookup block per case (for 2-3 (registry, "
+        "provided, name) combinations ALL required keys of arity <= 2 over the world, sampled arity-3 keys, "
+        "registered()) is replayed VERBATIM three times: after 2/3 of the history, again after ONE mutator that "
+        "overwrites / unregisters a live key the block resolves to (registry itself or a base registry), and at the "
+        "end; in between 6-8 churn steps = lookups around a live key (exact and derived keys, generalised provided, "
+        "through sub-registries), one overwrite / unregister / re-register of that key (None/Interface respelled), "
+        "the same lookups again.  Non-trivial = at least two different values and the default were returned; "
         "distinct = (registries, arities registered, number of distinct values returned)")
 TRUSTED_BASE = [
     "Model/Adapter.v abstraction: nested dictionaries represented by the finite map from full keys to values "
@@ -207,7 +211,7 @@ def gen_case(rng, big=False):
 
 def generate(run, tier):
     rng = run.rng("gen")
-    n = 120 if tier == "quick" else 1000
+    n = 120 if tier == "quick" else 700
     return [gen_case(rng, big=(tier != "quick")) for _ in range(n)]
 
 
